@@ -1751,7 +1751,9 @@ def fpad(input: STensor, pad, mode="constant", value=None) -> STensor:
 
 
 def avg_pool(input: STensor, kernel_size, stride=None, padding=0, ceil_mode=False, count_include_pad=True, divisor_override=None) -> STensor:
-    """Model of F.avg_poolNd for (N, C, *spatial) input (documented semantics)."""
+    """Model of F.avg_poolNd for (N, C, *spatial) input (documented semantics): implicit zero padding of `padding` samples on both
+    sides; the divisor is divisor_override, else the number of window elements inside the padded extent (count_include_pad) or
+    inside the input (otherwise)."""
     D = input.ndim - 2
 
     def tup(x):
@@ -1763,15 +1765,15 @@ def avg_pool(input: STensor, kernel_size, stride=None, padding=0, ceil_mode=Fals
     k = tup(kernel_size)
     s = k if stride is None else tup(stride)
     p = tup(padding)
-    if any(pp != 0 for pp in p) or divisor_override is not None:
-        raise Unsupported("avg_pool with padding / divisor_override")
+    if any(2 * pp > kk for pp, kk in zip(p, k)):
+        raise InterpError("RuntimeError", "pad should be at most half of kernel size")
     sp = list(input.shape[2:])
     import math
     out = []
-    for n, kk, ss in zip(sp, k, s):
-        o = (n - kk) / ss + 1
+    for n, kk, ss, pp in zip(sp, k, s, p):
+        o = Fraction(n + 2 * pp - kk, ss) + 1
         o = math.ceil(o) if ceil_mode else math.floor(o)
-        if ceil_mode and (o - 1) * ss >= n:
+        if ceil_mode and (o - 1) * ss >= n + pp:
             o -= 1
         out.append(max(o, 0))
     vals = []
@@ -1780,13 +1782,20 @@ def avg_pool(input: STensor, kernel_size, stride=None, padding=0, ceil_mode=Fals
         for c in range(input.shape[1]):
             for ix in itertools.product(*[range(o) for o in out]):
                 acc = Rat.of(0)
-                cnt = 0
+                cnt_in = 0
+                cnt_pad = 0
                 for jx in itertools.product(*[range(kk) for kk in k]):
-                    pos = [i * ss + j for i, ss, j in zip(ix, s, jx)]
+                    pos = [i * ss - pp + j for i, ss, pp, j in zip(ix, s, p, jx)]
+                    if all(-pp <= q < n + pp for q, n, pp in zip(pos, sp, p)):
+                        cnt_pad += 1
                     if all(0 <= q < n for q, n in zip(pos, sp)):
                         acc = acc + to_rat(inp[(b, c) + tuple(pos)].flat()[0])
-                        cnt += 1
-                vals.append(acc / cnt if cnt else Rat.of(0))
+                        cnt_in += 1
+                if divisor_override is not None:
+                    div = simplify(divisor_override)
+                else:
+                    div = cnt_pad if count_include_pad else cnt_in
+                vals.append(acc / div if div else Rat.of(0))
     return STensor.from_flat(vals, [input.shape[0], input.shape[1]] + out, FLOAT)
 
 
